@@ -73,6 +73,8 @@ type Unit struct {
 	fnRegion   *Region       // function-level modifies (nil: unchecked)
 	steps      int
 	nilChecked map[int][]*Term
+	caseTag    string
+	caseCond   *Term
 }
 
 func (e *Engine) NewUnit(fn *ssa.Function, bc *BoundContract) *Unit {
@@ -82,6 +84,12 @@ func (e *Engine) NewUnit(fn *ssa.Function, bc *BoundContract) *Unit {
 }
 
 func (u *Unit) assumeGlobal(f *Term) {
+	if u.caseCond != nil {
+		save := u.C.Rewrite
+		u.C.Rewrite = nil
+		f = u.C.Implies(u.caseCond, f)
+		u.C.Rewrite = save
+	}
 	if f.IsTrue() || u.assumed[f.id] {
 		return
 	}
@@ -116,6 +124,9 @@ func (u *Unit) addObl(o *Obligation) {
 	o.Fn = u.Fn.String()
 	if o.Expect == "" {
 		o.Expect = "unsat"
+	}
+	if u.caseTag != "" {
+		o.Name += " [case " + u.caseTag + "]"
 	}
 	base := o.Kind + ":" + o.Name
 	u.oblCount[base]++
@@ -204,6 +215,7 @@ type frame struct {
 	entry   *State // state at function entry (for old())
 	params  []Val
 	panics  []*State // states reaching a panic edge (for recover modelling)
+	heads   []*State // loop-head states of the loops being executed (innermost last)
 }
 
 type edge struct {
@@ -212,8 +224,9 @@ type edge struct {
 }
 
 type loopRegion struct {
-	region *Region
-	name   string
+	region   *Region
+	name     string
+	minFresh int // objects with a larger id were allocated inside the loop body
 }
 
 // loopInfo: natural loops of a function
@@ -868,6 +881,7 @@ func (fr *frame) execInstr(st *State, in ssa.Instruction) {
 		}
 		fr.vals[x] = tv[x.Index]
 	case *ssa.Call:
+		fr.assertsAtCall(st, x)
 		fr.vals[x] = fr.call(st, &x.Call, x, x.Pos())
 	case *ssa.Defer:
 		var args []Val
@@ -902,17 +916,17 @@ func (fr *frame) frameCheck(st *State, a *Term, t types.Type, pos token.Pos) {
 	if u.specMode > 0 {
 		return
 	}
-	_, rk := addrRoot(a)
-	if rk == 1 {
-		r, _ := addrRoot(a)
-		if r.K > 0 {
-			return // object allocated during this call
-		}
+	freshID := 0
+	if r, rk := addrRoot(a); rk == 1 && r.K > 0 {
+		freshID = r.K // object allocated during this call
 	}
 	// all leaf cells written
-	check := func(reg *Region, kind, label string) {
+	check := func(reg *Region, kind, label string, minFresh int) {
 		if reg == nil || reg.All {
 			return
+		}
+		if freshID > minFresh {
+			return // allocated after the frame in question was entered
 		}
 		var goals []*Term
 		for _, lf := range u.leaves(t, nil) {
@@ -928,9 +942,9 @@ func (fr *frame) frameCheck(st *State, a *Term, t types.Type, pos token.Pos) {
 		}
 		u.oblige(st, kind, name, pos, g)
 	}
-	check(u.fnRegion, "frame", "write")
+	check(u.fnRegion, "frame", "write", 0)
 	for _, lr := range u.loopRegion {
-		check(lr.region, "loopframe", lr.name+" write")
+		check(lr.region, "loopframe", lr.name+" write", lr.minFresh)
 	}
 }
 
@@ -1387,5 +1401,36 @@ func (fr *frame) runDefers(st *State) {
 		s2.pc = u.C.And(st.pc, u.C.Not(d.guard))
 		m := u.mergeStates([]*State{s1, s2})
 		*st = *m.clone()
+	}
+}
+
+// assertsAtCall emits the "assert[call:Name]" clauses of the function under verification before a
+// call whose callee (function or method) has that name.
+func (fr *frame) assertsAtCall(st *State, x *ssa.Call) {
+	if !fr.top || fr.bc == nil || len(fr.bc.Asserts) == 0 || fr.u.specMode > 0 {
+		return
+	}
+	name, qual := "", ""
+	if x.Call.IsInvoke() {
+		name = x.Call.Method.Name()
+		qual = types.TypeString(x.Call.Value.Type(), nil) + "." + name
+	} else if f := x.Call.StaticCallee(); f != nil {
+		name = f.Name()
+		qual = f.String()
+	}
+	if name == "" {
+		return
+	}
+	var env *specEnv
+	for _, as := range fr.bc.Asserts {
+		if as.Clause.Name != "call:"+name && as.Clause.Name != "call:"+qual {
+			continue
+		}
+		if env == nil {
+			env = fr.specEnv(fr.bc, st)
+		}
+		g := env.evalBool(as.Expr)
+		fr.u.oblige(st, "assert", "at call "+name+": "+strings.Join(strings.Fields(as.Clause.Text), " "), x.Pos(), g)
+		_ = g // asserted facts are not added as hypotheses: each assert stands alone and later queries stay small
 	}
 }
